@@ -51,8 +51,11 @@ def gen_case(seed, i):
                         {"kind": "unlink", "act": "errno:EIO", "ord": rng.choice([0, 1])},
                         {"kind": "mkdir", "act": rng.choice(["errno:EIO", "errno:EACCES"]), "ord": rng.choice([0, 1, 3])},
                         {"kind": "copyrange", "act": "short:7", "count": "inf"}])
-    if variant == "dev2" and fault is None:
-        fault = None
+    if variant == "dev2" and rng.random() < 0.6:
+        # the copy path is certain here: fail ONE step of it (create the target, set its mode, copy the data,
+        # remove the source) with one of the errnos a real file system answers with
+        fault = {"kind": rng.choice(["openw", "chmod", "chmod", "copyrange", "sendfile", "write", "unlink", "utimes", "mkdir"]),
+                 "act": "errno:" + rng.choice(["EPERM", "EACCES", "EIO", "ENOSPC", "EROFS"]), "ord": rng.choice([0, 0, 1])}
     return {"i": i, "world": w.to_json(), "variant": variant, "tdir": tdir, "pre": pre, "fault": fault,
             # the report was made in another working directory than the one `move` runs in (half of the cases):
             # a relative DIR belongs to the `move` command line
